@@ -26,7 +26,8 @@ CFG = dict(
                  "x86-64 host: weaker hardware reorderings are not produced, only what gcc emits + TSan's model"],
     min_counts={"any": {"conc_releases_completed_during_an_acquire_call": 50,
                         "conc_acquisitions_wrapped_to_start_with_outstanding": 1000,
-                        "acquire_wrapped_to_start": 100, "space_before_tail_used": 100}},
+                        "acquire_wrapped_to_start": 100, "space_before_tail_used": 100,
+                        "up_to_request_far_beyond_ring_incl_SIZE_MAX": 100}},
 )
 
 META = dict(
